@@ -99,20 +99,22 @@ impl Query {
     ensures
         //# Q1-query-and
         ret@ =~= acc_and(query_results(self.s_conds())),
-//@@ loop 1 iter=it
+//@@ loop 1
         invariant
+            //# Q1-vec
+            __v1@ == self.conds@,
             //# Q1-first-flag
-            first == (it.index@ == 0),
+            first == (__i1 == 0),
             //# Q1-prefix
-            it.index@ > 0 ==> result@ =~= acc_and(query_results(self.conds@).take(it.index@ as int)),
+            __i1 > 0 ==> result@ =~= acc_and(query_results(__v1@).take(__i1 as int)),
             //# Q1-done
-            it.index@ == self.conds@.len() ==> result@ =~= acc_and(query_results(self.conds@)),
+            __i1 == __v1@.len() ==> result@ =~= acc_and(query_results(__v1@)),
 //@@ proof at=loop1
             proof {
-                let i = it.index@ as int;
-                let qs = query_results(self.conds@);
+                let i = __i1 as int;
+                let qs = query_results(__v1@);
                 assert(qs.take(i + 1).drop_last() =~= qs.take(i));
-                assert(qs.take(i + 1).last() == self.conds@[i].result@);
+                assert(qs.take(i + 1).last() == __v1@[i].result@);
                 assert(qs.take(qs.len() as int) =~= qs);
             }
 //@@ end
